@@ -59,7 +59,9 @@ def poll_rule(tier="quick"):
                                      "RLX unsat for ticks <= 1e7, tps in [1,1e5], poll in [0,1e4]")
     # small witnesses replay quickly: ask again inside a small box
     small = [cur.t <= 400, tps.t <= 20]
-    for idx, extra in enumerate(([z3.Not(skip.t), exact < poll.t - slack], [skip.t, exact > poll.t + slack])):
+    # (with a 10 % margin so that the witness does not sit on a rounding edge)
+    for idx, extra in enumerate(([z3.Not(skip.t), exact < poll.t * Q(Fraction(9, 10)) - slack, last.t >= 1],
+                                 [skip.t, exact > poll.t * Q(Fraction(11, 10)) + slack, last.t >= 1])):
         rs, ms = solve(res, dom.side + rng + small + extra, 30000)
         if rs == "sat":
             if idx == 0:
